@@ -43,6 +43,25 @@ def callToJson : Except Err Call → Json
 def diffFields (a b : Q) : List String :=
   (paramNames a.cls).filter fun k => a.get k != b.get k
 
+/-- fields whose rebuilt value is not Python-`==` the original (the complete option set) -/
+def diffFieldsEq (a b : Q) : List String :=
+  (paramNames a.cls).filter fun k => !(b.get k).pyEq (a.get k)
+
+def specToJson (pos : Bool) (c : Cls) (s : FlagSpec) : Json :=
+  Json.mkObj [("name", Json.str s.name), ("pos", Json.bool pos), ("cond", Json.str s.cond.tag),
+    ("const", match s.cond with | .ne d => pyValToJson d | _ => Json.null),
+    ("default", pyValToJson (defaultOf c s.name)),
+    ("anchored", Json.bool (s.cond.anchored (defaultOf c s.name)))]
+
+/-- the case splits of `__str__` per class: every statement with its condition, the constant a
+    `!=` test compares with, the class's own default; and the options no statement mentions -/
+def anchorsJson : Json :=
+  Json.arr (Cls.all.map fun c =>
+    Json.mkObj [("cls", Json.str c.name),
+      ("rows", Json.arr (((posSpec c).map (specToJson true c)) ++ ((kwSpec c).map (specToJson false c))).toArray),
+      ("params", envToJson (params c)),
+      ("unprinted", Json.arr ((unprinted c).map Json.str).toArray)]).toArray
+
 def handle (j : Json) : Except String Json := do
   let op ← getStr j "op"
   match op with
@@ -59,6 +78,11 @@ def handle (j : Json) : Except String Json := do
                         ("wf", Json.bool (as.all Arg.wf)),
                         ("py", callToJson (pyCall name as)),
                         ("parse", callToJson (parseCall (render name as)))]
+  | "override" =>
+    let params ← (← (← j.getObjVal? "params").getArr?).toList.mapM pyValOfJson
+    let kw ← envOfJson (← j.getObjVal? "kw")
+    pure (callToJson (parseCallWith (← getStr j "s").toList params kw))
+  | "anchors" => pure (Json.mkObj [("classes", anchorsJson)])
   | "safe_eval" =>
     pure (resultToJson (safeEval (← getStr j "s").toList))
   | "str" =>
@@ -72,9 +96,12 @@ def handle (j : Json) : Except String Json := do
       let diff := match r with
         | .ok q' => Json.arr ((diffFields q q').map Json.str).toArray
         | .error _ => Json.null
+      let diffEq := match r with
+        | .ok q' => Json.arr ((diffFieldsEq q q').map Json.str).toArray
+        | .error _ => Json.null
       pure <| Json.mkObj [("construct", resultToJson (.ok q)),
         ("str", match s with | .ok t => Json.mkObj [("ok", Json.str t)] | .error e => Json.mkObj [("err", Json.str e.tag)]),
-        ("reparse", resultToJson r), ("diff_fields", diff)]
+        ("reparse", resultToJson r), ("diff_fields", diff), ("diff_eq", diffEq)]
   | _ => throw s!"unknown op {op}"
 
 def main : IO Unit := lineLoop handle
